@@ -33,6 +33,9 @@ Fixpoint t_repl (n : nat) (s t w : list N) : list N :=
     match s with [] => [] | c :: s' =>
       if is_prefix t s then w ++ t_repl n' (skipn (length t) s) t w else c :: t_repl n' s' t w end end.
 Definition t_replace (s t w : list N) : list N := match t with [] => s | _ => t_repl (length s) s t w end.
+(* copy-out to a caller buffer of dn cells that held the filler byte 205: min(dn-1, length) bytes, a terminator, rest untouched *)
+Definition t_copy_out (a : list N) (dn : nat) : list N :=
+  match dn with O => [] | S d => firstn d a ++ 0 :: repeat 205 (d - length a) end.
 Fixpoint t_concat_rep (s : list N) (k : nat) : list N := match k with O => [] | S k' => s ++ t_concat_rep s k' end.
 (* pieces of s each ending with the delimiter byte (kept), plus the non-empty remainder *)
 Fixpoint t_split (d : N) (s cur : list N) : list (list N) :=
